@@ -15,6 +15,12 @@ func Configure(id string) {
 		drv.AllowWillEdit = false
 	}
 	switch id {
+	case "C01", "C02", "C10", "C11", "c11-child":
+		drv.WillDup = true
+	default:
+		drv.WillDup = false
+	}
+	switch id {
 	case "C10", "C11", "c11-child", "C13":
 		drv.WillExtras = true
 	default:
